@@ -180,16 +180,40 @@ Proof.
         (conj run_methcalls_readonly (conj run_no_map_range (conj vm_package_vars frame_recognised)))))).
 Qed.
 
+(* methods called on the compile path are read-only ones of reflect / regexp / strings.Replacer, or write
+   into a buffer of the same call (PutUint16): in particular no Store / Load / LoadOrStore / Lock / Do of a
+   process-wide cache *)
+Definition compile_readonly_methods : list string := readonly_methods ++ ["MapKeys"; "Match"; "PutUint16"; "Replace"].
+
+Lemma compile_methcalls_readonly : forallb (fun m => mem m compile_readonly_methods) compile_methcalls = true.
+Proof. vm_compute. reflexivity. Qed.
+
+(* THE package-level variables of the library: type constants of the checker, the parser's and docgen's
+   tables, the lexer's replacer, vm.MemoryBudget.  None is written after initialisation
+   (compile_writes_per_call / run_writes_vm_local: no write is classed PackageLevel); a new one (a cache,
+   a "last result") makes this lemma fail *)
+Definition expected_package_vars : list string :=
+  ["ast.isCapital"; "checker.arrayType"; "checker.boolType"; "checker.floatType"; "checker.integerType";
+   "checker.interfaceType"; "checker.mapType"; "checker.nilType"; "checker.stringType"; "docgen.Builtins";
+   "docgen.Operators"; "docgen.isCapital"; "lexer.newlineNormalizer"; "parser.binaryOperators"; "parser.builtins";
+   "parser.unaryOperators"; "vm.MemoryBudget"].
+
+Lemma package_vars_expected : package_vars = expected_package_vars.
+Proof. vm_compute. reflexivity. Qed.
+
 Definition bridge_compile_frame : Prop :=
   (forall w, In w compile_writes -> w_class w = PerCall \/ w_class w = PerCallArg) /\
   compile_reflect_mutations = [] /\
   forallb (fun s => negb (has_prefix nondeterministic_prefixes s)) compile_extcalls = true /\
   compile_map_ranges = expected_map_ranges /\
   forallb (fun r => has_prefix ["conf."; "docgen."] (fst (fst r))) compile_map_ranges = true /\
-  frame_unrecognised = [].
+  frame_unrecognised = [] /\
+  forallb (fun m => mem m compile_readonly_methods) compile_methcalls = true /\
+  package_vars = expected_package_vars.
 
 Lemma bridge_compile_frame_holds : bridge_compile_frame.
 Proof.
   exact (conj compile_writes_per_call_forall (conj compile_no_reflect_mutation (conj compile_extcalls_deterministic
-        (conj map_ranges_expected (conj front_iterates_no_map frame_recognised))))).
+        (conj map_ranges_expected (conj front_iterates_no_map (conj frame_recognised
+        (conj compile_methcalls_readonly package_vars_expected))))))).
 Qed.
